@@ -19,7 +19,11 @@ RULE = ('Bottom graphs: feature molecules with every partition into <=4-5 fragme
         'edge order; upper edge order = number of crossing edges). Each string is resolved by the three drivers (repeated resolve, '
         'resolve_iter, resolve_all) on the real resolver; oracle: final graph isomorphic to the flattened two-level '
         'resolution, each step\'s coarse graph is the previous fine graph, mapping/bond invariants at every step, all drivers '
-        'agree, nothing is returned after the last level. Non-trivial = at least one intermediate level with a group of >=2 nodes.')
+        'agree, nothing is returned after the last level. Coarse fragments over the token-level generators: every sentence of the graph '
+        'grammar (all ring styles, multipliers) as the single fragment of a one-node base graph must resolve to the graph it denotes, '
+        'and every coarse fragment text with one descriptor (after nodes, ring markers, multipliers, closed / multiplied branches) '
+        'must bond the neighbouring fragment to the node the descriptor was written after. '
+        'Non-trivial = at least one intermediate level with a group of >=2 nodes.')
 ASSUMPTIONS = [
     'the flattened two-level string itself is covered by C01/C02/C03',
     'after the last level a further resolve() may raise or return None; it must not return a graph pair',
@@ -251,7 +255,7 @@ def plan(tier, seed, for_invariants=False):
 
 def fragment_grammar_spaces(tier):
     q = tier == 'quick'
-    return [('fragment-grammar-rings', G.Bound(max_nodes=5 if q else 6, max_depth=2, max_open=2, max_rings=2, bonds=('=',) if q else ('=', '.'),
+    return [('fragment-grammar-rings', G.Bound(max_nodes=5, max_depth=2, max_open=2, max_rings=2, bonds=('=',) if q else ('=', '.'),
                                                ring_styles=('d', 'p', 'pp'), max_bonds=1 if q else 2), 4),
             ('fragment-grammar-mult', G.Bound(max_nodes=4, max_depth=2, max_open=1, max_rings=1, bonds=('=',),
                                               ring_styles=('d', 'p'), max_bonds=1, mults=(2,) if q else (2, 3),
